@@ -61,6 +61,7 @@ type Contract struct {
 	Line     int
 	Traced   bool
 	NoInline bool
+	NoMerge  bool // explore paths separately (no state merging at joins)
 	Bounded  string // free text: function is checked by a bounded stand-in only
 }
 
@@ -324,6 +325,8 @@ func parseClause(c *Contract, t string, line int) error {
 		c.Traced = true
 	case "noinline":
 		c.NoInline = true
+	case "nomerge":
+		c.NoMerge = true
 	case "bounded":
 		c.Bounded = rest
 	case "requires", "ensures", "decreases":
